@@ -167,8 +167,42 @@ def _operand_summary(eng, st, args, kwargs):
     return [(st, st.deref(self).fields["value"])]
 
 
-def _binary(cls, spec_name):
-    @contract(f"{LOGICAL}:{cls}.evaluate", prop="C12")
+def _eq_spec(a, b):
+    both_bool = z3.And(U.is_bool(a), U.is_bool(b))
+    one_bool = z3.Xor(U.is_bool(a), U.is_bool(b))
+    return z3.If(both_bool, U.b(a) == U.b(b), z3.If(one_bool, False, z3.If(z3.And(U.is_int(a), U.is_int(b)), U.i(a) == U.i(b),
+           z3.If(z3.And(U.is_str(a), U.is_str(b)), U.s(a) == U.s(b), z3.And(U.is_none(a), U.is_none(b))))))
+
+
+def _any_expression(suffix):
+    @contract(f"liquid.builtin.tags.case_tag:_AnyExpression.evaluate{suffix}", prop="C12")
+    def ev(c):
+        vals = [c.any(n) for n in ("left", "when0", "when1")]
+        for v in vals:
+            plain(c, v)
+            c.requires(z3.And(prim(v.t), noflt(v.t)), "primitive non-float operands (floats are abstract)")
+        exprs = [c.obj("liquid.expression:Expression", f"expr{i}", value=v) for i, v in enumerate(vals)]
+        c.summary("liquid.expression:Expression.evaluate" + suffix, _operand_summary)
+        self = c.obj("liquid.builtin.tags.case_tag:_AnyExpression", "any", left=exprs[0], expressions=c.st.alloc(HList(items=exprs[1:])), token=NONE)
+        c.call(c.any("context"), self_val=self)
+        def post(r):
+            h = r.st.deref(r.value) if isinstance(r.value, VRef) else None
+            items = h.items if h is not None else None
+            if items is None or len(items) != 2:
+                return z3.BoolVal(False)
+            return z3.And(*[box(it) == U.bool(_eq_spec(vals[0].t, vals[i + 1].t)) for i, it in enumerate(items)])
+        c.ensures("when-matches-by-liquid-equality(one-result-per-alternative,in-order)", post)
+        c.raises()
+        c.replay("code", code=REPLAY_CASE)
+        c.assume_note("two alternatives stand for any number: the comprehension treats each alternative alike")
+
+
+for _sfx in ("", "_async"):
+    _any_expression(_sfx)
+
+
+def _binary(cls, spec_name, suffix=""):
+    @contract(f"{LOGICAL}:{cls}.evaluate{suffix}", prop="C12")
     def ev(c):
         l, r_ = c.any("left"), c.any("right")
         plain(c, l)
@@ -176,7 +210,7 @@ def _binary(cls, spec_name):
         c.requires(z3.And(prim(l.t), prim(r_.t), noflt(l.t), noflt(r_.t)), "primitive non-float operands (floats are abstract)")
         left = c.obj("liquid.expression:Expression", "left_expr", value=l)
         right = c.obj("liquid.expression:Expression", "right_expr", value=r_)
-        c.summary("liquid.expression:Expression.evaluate", _operand_summary)
+        c.summary("liquid.expression:Expression.evaluate" + suffix, _operand_summary)
         self = c.obj(f"{LOGICAL}:{cls}", cls, left=left, right=right, token=NONE)
         ctx = c.any("context")
         c.call(ctx, self_val=self)
@@ -209,6 +243,7 @@ def _binary(cls, spec_name):
 for _cls, _spec in (("EqExpression", "eq"), ("NeExpression", "ne"), ("LtExpression", "lt"), ("GtExpression", "gt"), ("LeExpression", "le"), ("GeExpression", "ge"),
                     ("LogicalAndExpression", "and"), ("LogicalOrExpression", "or")):
     _binary(_cls, _spec)
+    _binary(_cls, _spec, "_async")
 
 
 @structural("C12", "precedence-table")
@@ -220,6 +255,11 @@ def precedence_table():
     tok = load.get_module("liquid.token")
     T = lambda n: flow.const_eval(tok, tok.consts[n])  # noqa: E731
     obs = []
+    names = ("TOKEN_AND", "TOKEN_OR", "TOKEN_EQ", "TOKEN_LT", "TOKEN_GT", "TOKEN_NE", "TOKEN_LG", "TOKEN_LE", "TOKEN_GE", "TOKEN_CONTAINS", "TOKEN_NOT", "TOKEN_RPAREN")
+    missing = [n for n in names if T(n) not in table]
+    obs.append(flow.ob("every-operator-has-an-entry(no-fallback-to-lowest)", not missing, f"missing: {missing}", replay_schema="code", replay_extra={"code": REPLAY_LG}))
+    low = min(table.values()) - 1
+    table = {**{T(n): low for n in missing}, **table}   # what PRECEDENCES.get(kind, LOWEST) gives
     a, o = table[T("TOKEN_AND")], table[T("TOKEN_OR")]
     rel = [table[T(n)] for n in ("TOKEN_EQ", "TOKEN_LT", "TOKEN_GT", "TOKEN_NE", "TOKEN_LG", "TOKEN_LE", "TOKEN_GE")]
     mem = table[T("TOKEN_CONTAINS")]
@@ -252,6 +292,23 @@ not_covered("C12", "float operands (floats are abstract: exactness of float comp
             "grouping of deep and/or chains as a theorem about the recursive parser (table obligation + bounded enumeration of all trees to depth 4)")
 
 bounded("C12", "bounded/C12.py")
+
+REPLAY_CASE = r'''
+def run(m):
+    import asyncio
+    from liquid import Environment
+    t = Environment().from_string("{% case x %}{% when 1 %}one{% when true %}true{% else %}other{% endcase %}")
+    out = [t.render(x=True), asyncio.run(t.render_async(x=True)), t.render(x=1), asyncio.run(t.render_async(x=1))]
+    return {"violated": out != ["true", "true", "one", "one"], "observed": out}
+'''
+
+REPLAY_LG = r'''
+def run(m):
+    from liquid import Environment
+    got = Environment().from_string("{% if true and 1 <> 1 %}T{% else %}F{% endif %}").render()
+    return {"violated": got != "F", "observed": got}
+'''
+
 
 REPLAY = r'''
 def run(m):
